@@ -95,6 +95,7 @@ class Ctx:
         self.viol: dict[str, dict] = {}  # key -> {count, case, detail}
         self.errors: list[str] = []
         self.notes: dict[str, Any] = {}
+        self.current = None  # (start time, case) of the case being evaluated, read by the worker's watchdog thread
         self.t0 = time.time()
 
     # -- recording -----------------------------------------------------------------------------
